@@ -1243,6 +1243,21 @@ impl PatProp for Meta {
             if c.name("nosuchname").is_some() {
                 return Err(Fail::new("name-unknown", "None", "Some"));
             }
+            // the Index impls (by number and by name) give the text of the matched groups
+            for (i, g) in by_get.iter().enumerate() {
+                if let Some((a, b)) = g {
+                    if &c[i] != &t[*a..*b] {
+                        return Err(Fail::new("index-by-number", format!("caps[{}] == {:?}", i, &t[*a..*b]), format!("{:?}", &c[i])));
+                    }
+                }
+            }
+            for (i, name) in p.names.iter().enumerate() {
+                if let (Some(name), Some((a, b))) = (name, by_get[i + 1]) {
+                    if &c[name.as_str()] != &t[a..b] {
+                        return Err(Fail::new("index-by-name", format!("caps[{:?}] == {:?}", name, &t[a..b]), format!("{:?}", &c[name.as_str()])));
+                    }
+                }
+            }
             // the iterator after it has been advanced: nth / skip / step_by / count / size_hint agree with get(i)
             let len = c.len();
             for a in 0..=len.min(3) {
@@ -1297,7 +1312,7 @@ impl PatProp for Meta {
 
 pub fn run_c16(ctx: &RunCtx) -> Outcome {
     let mut o = Outcome::default();
-    o.rule = "patterns from the unrestricted space (all with >= 1 group, a quarter of those without any), a hash-chosen subset of groups named (x, y1, _z, π; (?<n>..) or (?P<n>..)), back-references respelled \\k<..> / (?P=..) as required; each pattern in its own form and with (?=) appended (forces the VM); oracle from the AST: captures_len == 1 + #groups, capture_names == [None, names...], and for every match at every offset Captures::len == captures_len, iter() == get(i) for all i, get(0) is Some, get(len+k) is None, name(n) == get(index of n), unknown name => None; Captures::iter() advanced by 0..3 next() calls and then asked for nth(0..2), the rest, step_by(2), count and size_hint agrees with get(i). Non-trivial = >= 2 groups, at least one named, at least one unmatched in the match. Distinct = distinct (pattern spelling, text, offset).".into();
+    o.rule = "patterns from the unrestricted space (all with >= 1 group, a quarter of those without any), a hash-chosen subset of groups named (x, y1, _z, π; (?<n>..) or (?P<n>..)), back-references respelled \\k<..> / (?P=..) as required; each pattern in its own form and with (?=) appended (forces the VM); oracle from the AST: captures_len == 1 + #groups, capture_names == [None, names...], and for every match at every offset Captures::len == captures_len, iter() == get(i) for all i, get(0) is Some, get(len+k) is None, name(n) == get(index of n), caps[i] / caps[name] give the group's text, unknown name => None; Captures::iter() advanced by 0..3 next() calls and then asked for nth(0..2), the rest, step_by(2), count and size_hint agrees with get(i). Non-trivial = >= 2 groups, at least one named, at least one unmatched in the match. Distinct = distinct (pattern spelling, text, offset).".into();
     o.assumptions = vec!["group count and names are computed from the harness AST / printer, not from the crate".into()];
     o.required_classes = vec!["engine:VM".into(), "engine:Wrap".into(), "groups:some-named".into(), "match:VM".into(), "match:Wrap".into()];
     let (enumerated, prods) = wild_spaces(ctx);
